@@ -16,12 +16,13 @@ DEMO_DST=$(grep -oE '[a-z/_]+/tests/[A-Za-z0-9_]+\.rs' "$OUT/$X.md" | head -1)
 CRATE_DIR=$(echo "$DEMO_DST" | sed -E 's#/tests/.*##')
 PKG=$(grep -m1 '^name' "$CRATE_DIR/Cargo.toml" | sed -E 's/name *= *"(.*)"/\1/')
 TEST=$(basename "$DEMO_DST" .rs)
+REL=""; grep -q -- "--release" "$OUT/$X.md" && REL="--release"
 git apply "$OUT/$X.patch" || { echo "patch does not apply" >> "$R"; exit 1; }
 if cargo test --workspace --offline --no-fail-fast >"$OUT/$X.confirm-suite.log" 2>&1; then echo "suite-with-change: PASS" >> "$R"; else echo "suite-with-change: FAIL" >> "$R"; fi
 mkdir -p "$(dirname "$DEMO_DST")"; cp "$OUT/$X-demo.rs" "$DEMO_DST"
-if cargo test -p "$PKG" --offline --test "$TEST" >"$OUT/$X.confirm-demo-with.log" 2>&1; then echo "demo-with-change: PASS (unexpected)" >> "$R"; else echo "demo-with-change: FAIL (expected)" >> "$R"; fi
+if cargo test $REL -p "$PKG" --offline --test "$TEST" >"$OUT/$X.confirm-demo-with.log" 2>&1; then echo "demo-with-change: PASS (unexpected)" >> "$R"; else echo "demo-with-change: FAIL (expected)" >> "$R"; fi
 git apply -R "$OUT/$X.patch"
-if cargo test -p "$PKG" --offline --test "$TEST" >"$OUT/$X.confirm-demo-without.log" 2>&1; then echo "demo-without-change: PASS (expected)" >> "$R"; else echo "demo-without-change: FAIL (unexpected)" >> "$R"; fi
+if cargo test $REL -p "$PKG" --offline --test "$TEST" >"$OUT/$X.confirm-demo-without.log" 2>&1; then echo "demo-without-change: PASS (expected)" >> "$R"; else echo "demo-without-change: FAIL (unexpected)" >> "$R"; fi
 git checkout -q -- . && git clean -qfd
-echo "demo: cargo test -p $PKG --offline --test $TEST  (file $DEMO_DST)" >> "$R"
+echo "demo: cargo test $REL -p $PKG --offline --test $TEST  (file $DEMO_DST)" >> "$R"
 cat "$R"
